@@ -443,6 +443,9 @@ def classify(kinds, pts):
         if k.endswith("lh") and len(k) > 3 and p[-2] == p[0]:
             k = k[:-2] + "h"
             p = p[:-1]
+            if k == "mlh":
+                # m A l B l A h: with the duplicate dropped this is the one-segment closed path m A l B h
+                return {"line", "curve"}
         if k in ("mlllh", "mllll") and p[0] == p[4]:
             (x0, y0), (x1, y1), (x2, y2), (x3, y3) = p[:4]
             square = (x0 == x1 and y1 == y2 and x2 == x3 and y3 == y0) or (y0 == y1 and x1 == x2 and y2 == y3 and x3 == x0)
